@@ -165,7 +165,7 @@ func init() {
 		Technique:   "runtime monitoring with fault enumeration: scripted query-resource scenarios against a reference query service (own normalisation, window derivation and diff), hooked cache state for sharing/links, boundary log for the query-request set and the lock window, generic convergence monitors",
 		Rule:        "enumeration of raw-query sets {single, two distinct, two aliases, alias + its normalised form (both orders), two aliases + distinct} x {sequential, all gets in flight} x every get answer order x every outcome per query request {events, collection, error, notFound, timeout} x every query answer order x intrusion inside the lock window {none, new subscribe, second query event} x 3 dataset mutations; checked: one cache entry per normalised query with links, exactly one query request per cached normalised query on the event's subject, nothing of the resource handled while a request of the round is unanswered, resumption afterwards, delete on notFound for that query only, events under the client's own rid, a probe query event afterwards, convergence (C01 monitor); every case distinct and non-trivial by construction",
 		Assumptions: []string{"the reference query service follows the RES service protocol: a query event's subject remembers (before, after); answers are derived for the normalised query asked", "queries answered with error/timeout are excluded from convergence until re-fetched"},
-		DesignRef:   "DESIGN.md §4 C13", Required: []string{"query.link", "query.lock", "query.unlock"},
+		DesignRef:   "DESIGN.md §4 C13", Required: []string{"query.link", "query.lock", "query.unlock", "query.skipRequested", "query.handover"},
 		LevelText: "fault enumeration over outcomes and orders of the get and query requests of small query sets, executed completely in the thorough tier",
 		LevelNote: "trusted base: reference query service, VerifSnapshot hook, exact partial quiescence"})
 }
